@@ -77,6 +77,8 @@ def check(cfg, out, stats):
             if not replay_violation(v):
                 raise Inconclusive("next-owner counterexample does not reproduce on the simulator")
             out.violations.append(v)
+            from ..bmc import mark_violation
+            mark_violation()
             return
     # ---- starvation lasso -----------------------------------------------------------------------------
     L = len(R.states) + 1
@@ -125,6 +127,8 @@ def check(cfg, out, stats):
             if not replay_violation(v):
                 raise Inconclusive("starvation lasso does not reproduce on the simulator")
             out.violations.append(v)
+            from ..bmc import mark_violation
+            mark_violation()
             return
 
 
